@@ -12,7 +12,15 @@ Op lines (symbolic addresses `A`,`B`,…, `gov`; `-` = empty / none):
   xfer <authority> <name> <newOwner>
   delname <signer> <name>
   begin <t>
+  bulk <signer> <acct> <name> <base> <n> <type> <exp|->
+  sweep <t> <limit>
   dump
+`bulk` is `n` `MsgAddAttribute` messages in one transaction (all or nothing): the values are the
+decimal numbers `base`, `base+1`, …, `base+n-1`, everything else is shared — the way to put many
+attributes with one expiration into a history.  `sweep` sets the block time and calls
+`Keeper.DeleteExpiredAttributes(ctx, limit)` directly (result `ok <number deleted>`): the chain
+always passes `MaxExpiredAttributionCount`; a small limit exercises the cap logic of the loop
+(counter, `break`, key order) on a few attributes.
 A `<name>` is the RAW spelling of the message's name with `_` standing for a space
 (`KYC.vf`, `_kyc.vf`, `kyc_.vf`): `parseName` computes the normalised name (`Normalize`) and the
 `Spelling` flags by running the three Go key functions on the raw string.  `bind` takes the
@@ -94,6 +102,10 @@ def parseOp (ws : List String) : Option SOp :=
   | ["begin", t] => t.toNat?.map fun t => ⟨{}, .beginBlock t⟩
   | _ => none
 
+/-- the attributes of a `bulk` line -/
+def bulkAttrs (ac n : String) (base cnt : Nat) (ty : AType) (e : Option Nat) : List Attribute :=
+  (List.range cnt).map fun i => ⟨ac, n, toString (base + i), ty, e⟩
+
 def parseInit (ws : List String) : State :=
   let now := ((kv ws "now").bind String.toNat?).getD 0
   let accts := splitList ((kv ws "accts").getD "-")
@@ -136,13 +148,30 @@ def parseDump (line : String) : Option State := do
     | _ => none
   pure { now := now, names := names, recs := recs, cnt := look.flatten, queue := q }
 
+/-- what was executed since the last dump -/
+inductive Pending
+  | op (o : Op)
+  | bulk (signer : String) (attrs : List Attribute)
+  | sweep (t limit : Nat)
+
 structure DState where
   model : State := {}
   /-- last state dumped by the implementation -/
   obs : Option State := none
   obsStr : String := ""
   /-- the op executed since the last dump and whether the implementation accepted it -/
-  pending : Option (Op × Bool) := none
+  pending : Option (Pending × Bool) := none
+
+def pendingVerdict (prev : State) (p : Pending) (acc : Bool) (next : State) : String :=
+  match p with
+  | .op o => verdict prev o acc next
+  | .bulk signer attrs => verdictBulk prev signer attrs acc next
+  | .sweep t limit =>
+    -- a sweep with its own limit: leaving expired attributes behind is what the code promises
+    -- when (and only when) more than `limit` were expired and `limit` of them are gone
+    match verdictCap limit prev (.beginBlock t) acc next with
+    | "fail:expired_survives_begin_block:more_expired_than_the_sweep_cap" => "ok"
+    | v => v
 
 def stepLine (d : DState) (op : String) (impl : Option String) : DState × String × String :=
   let ws := words op
@@ -160,9 +189,23 @@ def stepLine (d : DState) (op : String) (impl : Option String) : DState × Strin
         let v :=
           match d.pending, d.obs with
           | some (o, acc), some prev =>
-            if !acc ∧ i ≠ d.obsStr then "fail:rejected_op_changed_state" else verdict prev o acc next
+            if !acc ∧ i ≠ d.obsStr then "fail:rejected_op_changed_state" else pendingVerdict prev o acc next
           | _, _ => if lookupComplete next then "ok" else "fail:lookup_omits_holder"
         ({ d with obs := some next, obsStr := i, pending := none }, out, v)
+  | ["bulk", sg, ac, n, base, cnt, ty, e] =>
+    let acc := match impl with | some i => i.startsWith "ok" | none => false
+    let (n, sp) := parseName n
+    let attrs := bulkAttrs (dash ac) n (base.toNat?.getD 0) (cnt.toNat?.getD 0) (parseType ty) (parseExp e)
+    match stepAll d.model (attrs.map fun a => ⟨sp, .add sg a⟩) with
+    | .ok s' => ({ d with model := s', pending := some (.bulk sg attrs, acc) }, "ok", "-")
+    | .error e => ({ d with pending := some (.bulk sg attrs, acc) }, e.toString, "-")
+  | ["sweep", t, limit] =>
+    let acc := match impl with | some i => i.startsWith "ok" | none => false
+    let t := t.toNat?.getD 0
+    let limit := limit.toNat?.getD 0
+    let s' := deleteExpiredAttributes { d.model with now := t } limit
+    ({ d with model := s', pending := some (.sweep t limit, acc) },
+      s!"ok {d.model.recs.length - s'.recs.length}", "-")
   | _ =>
     match parseOp ws with
     | none => (d, "bad-op", "-")
@@ -170,8 +213,8 @@ def stepLine (d : DState) (op : String) (impl : Option String) : DState × Strin
       let acc := match impl with | some i => i.startsWith "ok" | none => false
       -- the checker judges the message by its NORMALISED name (`o.op`)
       match stepS d.model o with
-      | .ok s' => ({ d with model := s', pending := some (o.op, acc) }, "ok", "-")
-      | .error e => ({ d with pending := some (o.op, acc) }, e.toString, "-")
+      | .ok s' => ({ d with model := s', pending := some (.op o.op, acc) }, "ok", "-")
+      | .error e => ({ d with pending := some (.op o.op, acc) }, e.toString, "-")
 
 def driver : Driver where
   σ := DState
